@@ -11,8 +11,28 @@ TECH = ('explicit TLA+ specification model-checked with TLC; TLC-emitted '
 
 # property id -> (design_ref, level text, level note, technique suffix)
 CLAIMED = {
+    'C06': ('5/C06, 3.1',
+            'Exp_arith (13 operators, masked operands, division by zero -> masked, coordinate pass-through), Exp_eval (expression grammar var/int/binary/where) and Exp_mask (predicate combinations, where with/without dims, coords flag) are evaluated by TLC in exact rationals on every arith/eval/mask step and compared with the logged result.',
+            'Trusted: TLC/SANY, the projection (harness/project.py: integers, rationals with denominator <= 100, hex otherwise), the argument conversion in harness/core_driver.py. Values are exact rationals; cells whose exact value cannot be identified from the float (denominator > 100, float32 magnitude > 2000, float32 variance, 32-bit overflow guards Dec_*) are not decided. Plotting, projections (pyproj missing) and xarray export are out of reach.',
+            'arith/eval/mask traces validated'),
+    'C04': ('5/C04, 3.2',
+            'Exp_stack (concatenation in argument order along the stack axis, masks included, other variables from the first file, length = sum) is evaluated by TLC on every stack step of programs that first split by slicing and then stack 2-3 files (same file twice, pieces, masked and unmasked).',
+            'Trusted: TLC/SANY, the projection (harness/project.py: integers, rationals with denominator <= 100, hex otherwise), the argument conversion in harness/core_driver.py. Values are exact rationals; cells whose exact value cannot be identified from the float (denominator > 100, float32 magnitude > 2000, float32 variance, 32-bit overflow guards Dec_*) are not decided. Plotting, projections (pyproj missing) and xarray export are out of reach.',
+            'stack traces validated against ConcatArr'),
+    'C03': ('5/C03, 3.1',
+            'Exp_apply (exact rational reducers sum/min/max/mean/var with masked cells excluded, callables diff/reverse/sub-sampling/cumsum/convolutions along the axis) is evaluated by TLC for every apply step; for several dimensions the result must equal the evaluation in some order of the axes (for commuting reducers the set is a singleton); dimension and coordinate lengths follow the function output length.',
+            'Trusted: TLC/SANY, the projection (harness/project.py: integers, rationals with denominator <= 100, hex otherwise), the argument conversion in harness/core_driver.py. Values are exact rationals; cells whose exact value cannot be identified from the float (denominator > 100, float32 magnitude > 2000, float32 variance, 32-bit overflow guards Dec_*) are not decided. Plotting, projections (pyproj missing) and xarray export are out of reach.',
+            'apply traces validated against exact reducers'),
+    'C02': ('5/C02, 3.1',
+            'Exp_slice (orthogonal selection Ortho and zipped selection Zip in PncValues.tla, Python slice rule transcribed from the language definition) is evaluated by TLC on the logged pre-state of every slice step (ints, slices incl. negative/empty/reversed, lists with repeats, 1-3 dimensions, any keyword order, also after other operations) and must equal the logged result: data, masks, dimension lengths and flags, dtype and attributes.',
+            'Trusted: TLC/SANY, the projection (harness/project.py: integers, rationals with denominator <= 100, hex otherwise), the argument conversion in harness/core_driver.py. Values are exact rationals; cells whose exact value cannot be identified from the float (denominator > 100, float32 magnitude > 2000, float32 variance, 32-bit overflow guards Dec_*) are not decided. Plotting, projections (pyproj missing) and xarray export are out of reach.',
+            'slice traces validated against Ortho/Zip'),
+    'C01': ('5/C01, 3.2',
+            'Recorded executions of seeded random programs (depth 2-4 over templates T1-T5: differing dimension subsets, masked variables, coordinate variables, length-1 and unlimited dimensions, unlimited not first) through copy/slice/apply/stack/subset/rename/insert/remove/reorder/mask/eval/arithmetic are validated by spec/PncCore_Trace.tla: every returned file must satisfy WellFormed (PncCore.tla), surviving dimensions keep the unlimited flag, and a call whose arguments satisfy the documented-domain predicate Dom_X must complete.',
+            'Trusted: TLC/SANY, the projection (harness/project.py: integers, rationals with denominator <= 100, hex otherwise), the argument conversion in harness/core_driver.py. Values are exact rationals; cells whose exact value cannot be identified from the float (denominator > 100, float32 magnitude > 2000, float32 variance, 32-bit overflow guards Dec_*) are not decided. Plotting, projections (pyproj missing) and xarray export are out of reach.',
+            'program traces validated against PncCore'),
     'C05': ('5/C05, 3.6',
-            'Part 2 (handles): TLC checks OthersStayValid, NoSharedHandle and OnlyOwnerReleases on spec/NcHandles.tla over every open/close/drop/finalise schedule of 3 objects (6 steps quick, 7 thorough) with id recycling; emitted schedules are replayed on real disk files through netcdf(), ioapi(), pncopen() and save() in one forked process each and the logged ids, finalisations (weak references) and reads are validated by spec/NcHandles_Trace.tla.',
+            'Part 1 (heap): in recorded programs with queries (repr, dump, getTimes, val2idx, time2idx, date2num, save) and a write into every variable of each new file, PncCore_Trace.tla requires the projection of every other live object to be unchanged after every call. Part 2 (handles): TLC checks OthersStayValid, NoSharedHandle and OnlyOwnerReleases on spec/NcHandles.tla over every open/close/drop/finalise schedule of 3 objects (6 steps quick, 7 thorough) with id recycling; emitted schedules are replayed on real disk files through netcdf(), ioapi(), pncopen() and save() in one forked process each and the logged ids, finalisations (weak references) and reads are validated by spec/NcHandles_Trace.tla.',
             'Trusted: TLC, weakref observation of finalisation, the read probe. Partial collections are covered in the model only.',
             'schedule enumeration + trace validation'),
     'C15': ('5/C15, 3.5',
